@@ -41,10 +41,15 @@ def table_cases():
             shapes = list(range(1, 7))
         elif name in ("intcblock", "bytecblock"):
             shapes = list(range(1, 4))
+        elif name == "replace":
+            shapes = [None, 0, 1, 2, 9]
         for sh in shapes:
             toks, vals = [], []
             for kind in op.imm:
-                if kind == "u8":
+                if kind == "u8opt":
+                    if sh is not None:
+                        toks.append(str(sh)); vals.append(sh)
+                elif kind == "u8":
                     v = sh if sh is not None else 1
                     toks.append(str(v)); vals.append(v)
                 elif kind == "i8":
